@@ -2,7 +2,7 @@
    Only statements, each closed by [exact] of a lemma proved in Proofs/Icmp6SpoofGlue*.v. *)
 From PV Require Model.ViewsBase Model.ViewsVar Model.Views2 Model.SendBase Model.Send Spec.SendRef Proofs.SendBase.
 From PV Require Import Base.Prelude Base.Slice Model.Icmp6SpoofRA Model.Icmp6Spoof Proofs.Icmp6Spoof
-  Proofs.Icmp6SpoofGlue Proofs.Icmp6SpoofGlueViews.
+  Proofs.Icmp6SpoofGlue Proofs.Icmp6SpoofGlueViews Proofs.Icmp6SpoofGlueRun.
 Open Scope N_scope.
 
 (* ------------------------------------------------------------------ *)
@@ -71,3 +71,15 @@ Theorem C14_glue_send_linklocal : forall ip, PV.Proofs.SendBase.ip6_ok ip -> is4
   is_llu ip || is_llm ip = true -> PV.Spec.SendRef.ip6_is_linklocal ip = true.
 Proof. exact dst_linklocal. Qed.
 Print Assumptions C14_glue_send_linklocal.
+
+(* C14 o C07 without hypotheses on the record: after ANY history of well-formed events (6-octet MACs,
+   netip addresses of 0/4/16 octets: what the Go types guarantee), whatever a Send step emits is, written by
+   SEND's model into any pooled buffer, read back by SEND's reference decoder as exactly that record *)
+Theorem C14_glue_send_run : forall c rep evs i n junk,
+  PV.Proofs.SendBase.mac_ok (host_mac c) -> Forall ev_wf evs -> List.length junk = PV.Model.SendBase.EthMaxSize ->
+  let st := snd (run c (init rep) evs) in
+  snd (step c st (Send i)) = ONAs [n] ->
+  exists fr, PV.Model.Send.send_na (send_cfg c) (na_eth_src n, na_ip_src n) (na_eth_dst n, na_ip_dst n) (na_tlla n, na_target n) junk = Ok [fr] /\
+    on_wire n fr = true /\ na_flags n = 32.
+Proof. exact run_on_wire. Qed.
+Print Assumptions C14_glue_send_run.
